@@ -154,7 +154,7 @@ def tsan_replay(sym, tag):
 
 
 def run(tier, only=None):
-    chk = Check('C16', tier)
+    chk = Check('C16', tier, level='other')
     srcs, statics, undefined, errors = inventory(chk.scratch)
     for e in errors:
         chk.add_inconclusive(e)
